@@ -129,6 +129,10 @@ def run_property(prop, tier, seed, jobs=None, only=None, verbose=False):
             "undecided": [o["name"] for o in unknown] + [f for f, _ in unsupported],
             "known_findings_matched": known_hits,
             "known_finding_obligations": len(known_hits),
+            "cvc5_second_opinion": {k: sum((r.get("extra") or {}).get(k, 0) for r in results)
+                                    for k in ("cvc5_agree", "cvc5_no_opinion", "cvc5_disagree")} if tier == "thorough" else "thorough tier only",
+            "static_analysis_sites": {r["family"]: r["extra"] for r in results if (r.get("extra") or {}).get("sites")},
+            "arity_bounds": {"outer_K": 4 if tier == "thorough" else 3, "nested_J": 3 if tier == "thorough" else 2},
             "source_sha256": prog.source_hashes(),
             "samples": samples,
             "explanation": "every obligation is generated from the AST of /repo/src on this run and discharged by SMT; see DESIGN.md",
